@@ -294,6 +294,7 @@ pub fn property() -> Property {
                 name: "chains-end-to-end",
                 rule: "see property rule",
                 cases: (1_200_000, 5_000_000),
+                fuzz_decode: None,
                 strategy: chain_strategy,
                 check: check_chain,
                 required_classes: &["fragmented", "complete", "final-mandatory", "storage==pdu", "receiver-does-not-know-a-mandatory-id", "receiver-knows-all"],
@@ -302,6 +303,7 @@ pub fn property() -> Property {
                 name: "undecodable-combinations",
                 rule: "protocol type < 0x0100 with a chain not closed by that final mandatory extension",
                 cases: (360_000, 1_000_000),
+                fuzz_decode: None,
                 strategy: bad_strategy,
                 check: check_bad,
                 required_classes: &["last-ext-optional", "last-ext-mandatory-other-id"],
